@@ -866,7 +866,8 @@ class RedlineEngine:
             curr = curr.getnext()
             if curr is None:
                 return None
-            if curr.tag == qn("w:r"):
+            # a run without text (comment reference, field character ...) cannot lend its formatting to inserted text
+            if curr.tag == qn("w:r") and curr.find(qn("w:t")) is not None:
                 return Run(curr, run._parent)
 
     def _determine_style_source(self, prev_run: Run, next_run: Optional[Run], insert_text: str) -> Run:
